@@ -90,6 +90,8 @@ type fReq struct {
 	// bytes or more; whether that is a pointer is not settled, so only the
 	// well-formedness of the exchange (and of everything after it) is judged
 	AnyOutcome bool
+	// Orig: for a retrieval, the payload of the smudge request that was delayed
+	Orig []byte
 	// results
 	Status1, Status2 string
 	Content          []byte
@@ -326,6 +328,7 @@ func (p *gitPeer) advance() {
 			next.ObjIdx = orig.ObjIdx
 			next.Expect = orig.Expect
 			next.AnyOutcome = orig.AnyOutcome
+			next.Orig = orig.Payload
 			next.ExpectErr = orig.ExpectErr
 			delete(p.delayed, path)
 		}
@@ -405,6 +408,7 @@ func runC14(rc *RunCtx, faults bool) {
 	objs := make([]*Obj, nobj)
 	local := make([]bool, nobj)
 	onServer := make([]bool, nobj)
+	damaged := make([]bool, nobj)
 	for i := range objs {
 		sz := []int{10, 1, 1500, 70000, 200000}[t.Choose(5, "obj-size")]
 		b := pseudo(sz, uint64(i+1)*977+uint64(sz), t.Choose(2, "obj-text") == 1)
@@ -412,7 +416,10 @@ func runC14(rc *RunCtx, faults bool) {
 		objs[i] = &Obj{Idx: i, Data: b, Oid: sim.OidOf(b)}
 		local[i] = t.Bool(1, 3, "obj-local")
 		onServer[i] = !t.Bool(1, 8, "obj-missing-on-server")
+		// a local copy may be damaged (stored at half its size)
+		damaged[i] = local[i] && sz > 1 && t.Bool(1, 8, "obj-local-damaged")
 	}
+	localFailure := false
 	var f sim.Faults
 	if faults {
 		f.Get5xx = pickRate(t, "get5xx", 1, 4)
@@ -448,7 +455,11 @@ func runC14(rc *RunCtx, faults bool) {
 		}
 		if local[i] {
 			p, _ := cfg.Filesystem().ObjectPath(o.Oid)
-			os.WriteFile(p, o.Data, 0644)
+			if damaged[i] {
+				os.WriteFile(p, o.Data[:len(o.Data)/2], 0644)
+			} else {
+				os.WriteFile(p, o.Data, 0644)
+			}
 		}
 	}
 	peer := &gitPeer{rc: rc, t: t, delayCap: delayCap, delayed: map[string]*fReq{}, announce: map[string]int{}, objs: objs}
@@ -508,7 +519,17 @@ func runC14(rc *RunCtx, faults bool) {
 				r.Payload = []byte(canonicalPointer(objs[oi].Oid, int64(len(objs[oi].Data))))
 				r.Expect = objs[oi].Data
 				r.ExpectErr = !local[oi] && (!onServer[oi] || faults)
-				if t.Bool(1, 12, "smudge-pointer-padded-beyond-1024") {
+				if damaged[oi] {
+					// a damaged local copy: an error answer is fine, wrong content is not
+					r.ExpectErr = true
+					localFailure = true
+				}
+				if local[oi] && t.Bool(1, 12, "smudge-pointer-with-unconfigured-extension") {
+					// the object is there but cannot be written out
+					r.Payload = []byte(fmt.Sprintf("version https://git-lfs.github.com/spec/v1\next-0-nosuchext sha256:%s\noid sha256:%s\nsize %d\n", sim.OidOf([]byte("pre-extension")), objs[oi].Oid, len(objs[oi].Data)))
+					r.ExpectErr = true
+					localFailure = true
+				} else if t.Bool(1, 12, "smudge-pointer-padded-beyond-1024") {
 					total := []int{1024, 1025, 1500, 70000}[t.Choose(4, "padded-total")]
 					pad := []string{" ", "\n"}[t.Choose(2, "pad-char")]
 					r.Payload = append(r.Payload, []byte(strings.Repeat(pad, total-len(r.Payload)))...)
@@ -576,8 +597,8 @@ func runC14(rc *RunCtx, faults bool) {
 	}
 	if exited {
 		rc.Probe("process-exit")
-		if !(exitCode == 2 && downloadFailed && !skipErrs) {
-			rc.Violation("filter-exited", "filter-process ended with status %d (download failure scripted: %v, lfs.skipdownloaderrors=%v); stderr: %s", exitCode, downloadFailed, skipErrs, clipS(stderr.String(), 300))
+		if !(exitCode == 2 && (downloadFailed || localFailure) && !skipErrs) {
+			rc.Violation("filter-exited", "filter-process ended with status %d (download failure scripted: %v, lfs.skipdownloaderrors=%v); stderr: %s", exitCode, downloadFailed || localFailure, skipErrs, clipS(stderr.String(), 300))
 			return
 		}
 	}
@@ -624,7 +645,7 @@ func runC14(rc *RunCtx, faults bool) {
 				continue
 			}
 			// a pointer handed back instead of content is legal only when the download failed and errors are skipped
-			if r.ObjIdx >= 0 && skipErrs && (r.ExpectErr || downloadFailed) && bytes.Equal(r.Content, []byte(canonicalPointer(objs[r.ObjIdx].Oid, int64(len(objs[r.ObjIdx].Data))))) {
+			if r.ObjIdx >= 0 && skipErrs && (r.ExpectErr || downloadFailed) && (bytes.Equal(r.Content, []byte(canonicalPointer(objs[r.ObjIdx].Oid, int64(len(objs[r.ObjIdx].Data))))) || (r.Cmd == "smudge" && bytes.Equal(r.Content, r.Payload)) || (r.Cmd == "retrieve" && bytes.Equal(r.Content, r.Orig))) {
 				rc.Probe("pointer-left-after-skipped-error")
 				continue
 			}
